@@ -21,5 +21,8 @@ def run(ck):
     routes.carrier_ladder(ck, "C01.R4")
     routes.no_store_into_immutable(ck, "C01.R5")
     routes.carrier_types(ck, "C01.R6")
+    routes.no_truncation_before_rounding(ck, "C01.R7")
+    from . import ops
+    ops.conversions(ck, "C16.R2")        # "the value read back is exactly code*2^-n_frac"
     pipeline.rounding_table(ck, "C05.R1", "C05.R2", "C05.R3")
     pipeline.overflow_dispatch(ck, "C02.R6", "C03.R2", roles)
